@@ -32,36 +32,44 @@ SPEC = {
     },
     "floors": {
         "quick": {
-            "evaluations": 12_000, "distinct_nontrivial": 500, "accounts": 500,
-            "accounts_net_main": 150, "accounts_net_test": 150, "accounts_net_regtest": 150,
-            "usk_bytes_roundtrips": 500, "usk_permuted_item_order_decoded": 500,
-            "ufvk_roundtrips": 1_300, "uivk_roundtrips": 1_300,
-            "subset_t1s1o1": 500, "subset_t0s1o1": 120, "subset_t1s1o0": 120, "subset_t1s0o1": 120,
-            "subset_t0s1o0": 120, "subset_t0s0o1": 120,
-            "addresses_matching_model": 3_000, "address_requests_refused_as_modelled": 4_000,
-            "requests_without_shielded_refused": 700,
-            "indices_invalid_for_sapling": 3_500, "indices_invalid_for_transparent": 3_500,
-            "find_address_hits": 2_000, "find_address_skipped_invalid_sapling_indices": 400,
-            "diversifier_indices_recovered": 3_000, "foreign_addresses_not_recognised": 900,
-            "bip44_derivations_external": 600, "bip44_derivations_internal": 600, "bip44_derivations_ephemeral": 600,
-            "gap_list_addresses_checked": 5_000,
-            "legacy_extsk_roundtrips": 500, "legacy_extfvk_roundtrips": 500, "legacy_payment_address_roundtrips": 450,
-            "legacy_transparent_address_roundtrips": 1_000, "transparent_secret_key_roundtrips": 1_000,
-            "sapling_notes_decrypted_by_matching_scope_only": 400, "sapling_internal_notes_hidden_from_uivk": 400,
-            "orchard_notes_decrypted_by_matching_scope_only": 700, "ironwood_notes_decrypted_by_matching_scope_only": 700,
-            "py_checked_container_strings": 2_000, "py_checked_encoder_strings": 3_000,
-            "py_checked_bech32_key_strings": 1_200, "py_checked_base58_key_strings": 800,
+            "evaluations": 8_400, "distinct_nontrivial": 500, "accounts": 350,
+            "accounts_net_main": 100, "accounts_net_test": 100, "accounts_net_regtest": 100,
+            "usk_bytes_roundtrips": 350, "usk_permuted_item_order_decoded": 350,
+            "ufvk_roundtrips": 900, "uivk_roundtrips": 900,
+            "subset_t1s1o1": 350, "subset_t0s1o1": 80, "subset_t1s1o0": 80, "subset_t1s0o1": 80,
+            "subset_t0s1o0": 80, "subset_t0s0o1": 80,
+            "addresses_matching_model": 2_100, "address_requests_refused_as_modelled": 2_800,
+            "requests_without_shielded_refused": 480,
+            "indices_invalid_for_sapling": 2_450, "indices_invalid_for_transparent": 2_450,
+            "find_address_hits": 1_400, "find_address_skipped_invalid_sapling_indices": 280,
+            "diversifier_indices_recovered": 2_100, "foreign_addresses_not_recognised": 630,
+            "bip44_derivations_external": 420, "bip44_derivations_internal": 420, "bip44_derivations_ephemeral": 420,
+            "gap_list_addresses_checked": 3_500,
+            "legacy_extsk_roundtrips": 350, "legacy_extfvk_roundtrips": 350, "legacy_payment_address_roundtrips": 310,
+            "legacy_transparent_address_roundtrips": 700, "transparent_secret_key_roundtrips": 700,
+            "sapling_notes_decrypted_by_matching_scope_only": 280, "sapling_internal_notes_hidden_from_uivk": 280,
+            "orchard_notes_decrypted_by_matching_scope_only": 480, "ironwood_notes_decrypted_by_matching_scope_only": 480,
+            "py_checked_container_strings": 1_400, "py_checked_encoder_strings": 2_100,
+            "py_checked_bech32_key_strings": 840, "py_checked_base58_key_strings": 560,
             "pyref_selftest_vectors": 100,
         },
         "thorough": {
-            "evaluations": 800_000, "distinct_nontrivial": 2_000, "accounts": 40_000,
-            "usk_bytes_roundtrips": 40_000, "ufvk_roundtrips": 100_000, "uivk_roundtrips": 100_000,
-            "addresses_matching_model": 200_000, "address_requests_refused_as_modelled": 200_000,
-            "find_address_hits": 100_000, "diversifier_indices_recovered": 200_000,
-            "bip44_derivations_external": 40_000, "bip44_derivations_internal": 40_000, "bip44_derivations_ephemeral": 40_000,
-            "sapling_notes_decrypted_by_matching_scope_only": 40_000,
-            "orchard_notes_decrypted_by_matching_scope_only": 50_000, "ironwood_notes_decrypted_by_matching_scope_only": 50_000,
-            "py_checked_container_strings": 100_000, "py_checked_encoder_strings": 100_000,
+            "evaluations": 200_000, "distinct_nontrivial": 600, "accounts": 8_000,
+            "accounts_net_main": 2_500, "accounts_net_test": 2_500, "accounts_net_regtest": 2_500,
+            "usk_bytes_roundtrips": 8_000, "ufvk_roundtrips": 20_000, "uivk_roundtrips": 20_000,
+            "subset_t1s1o1": 8_000, "subset_t0s1o1": 2_000, "subset_t1s1o0": 2_000, "subset_t1s0o1": 2_000,
+            "subset_t0s1o0": 2_000, "subset_t0s0o1": 2_000,
+            "addresses_matching_model": 50_000, "address_requests_refused_as_modelled": 65_000,
+            "indices_invalid_for_sapling": 50_000, "indices_invalid_for_transparent": 50_000,
+            "find_address_hits": 30_000, "find_address_skipped_invalid_sapling_indices": 6_000,
+            "diversifier_indices_recovered": 50_000, "foreign_addresses_not_recognised": 15_000,
+            "bip44_derivations_external": 10_000, "bip44_derivations_internal": 10_000, "bip44_derivations_ephemeral": 10_000,
+            "gap_list_addresses_checked": 80_000,
+            "legacy_extsk_roundtrips": 8_000, "legacy_extfvk_roundtrips": 8_000, "transparent_secret_key_roundtrips": 16_000,
+            "sapling_notes_decrypted_by_matching_scope_only": 7_000, "sapling_internal_notes_hidden_from_uivk": 7_000,
+            "orchard_notes_decrypted_by_matching_scope_only": 12_000, "ironwood_notes_decrypted_by_matching_scope_only": 12_000,
+            "py_checked_container_strings": 40_000, "py_checked_encoder_strings": 70_000,
+            "pyref_selftest_vectors": 100,
         },
     },
     "manifest": {
